@@ -29,9 +29,9 @@ import (
 type C30Client struct {
 	MinV  uint16 `json:"min_v"`
 	MaxV  uint16 `json:"max_v"`
-	Cert  int    `json:"cert"`            // 0 none, 1 self-signed, 2 signed by the configured CA, 3 signed by another CA
-	Old   bool   `json:"old_suites"`      // offer the CBC/SHA1 suites TLS 1.0/1.1 need
-	After int    `json:"after,omitempty"` // 0 before any rotation/update, 1 after
+	Cert  int    `json:"cert"`             // 0 none, 1 self-signed, 2 signed by the configured CA, 3 signed by another CA
+	Old   bool   `json:"old_suites"`       // offer the CBC/SHA1 suites TLS 1.0/1.1 need
+	After int    `json:"after,omitempty"`  // 0 before any rotation/update, 1 after
 	NoSNI bool   `json:"no_sni,omitempty"` // no server name in the ClientHello (a client that dials an IP address)
 }
 
@@ -43,16 +43,16 @@ type C30Scn struct {
 	CA          int         `json:"ca"`     // 0 none, 1 the CA file, 2 a missing file
 	Suites      int         `json:"suites"` // 0 as given by Default/none, 1 empty (Go defaults), 2 with CBC-SHA suites added
 	Clients     []C30Client `json:"clients"`
-	Rotate      bool        `json:"rotate"`       // replace the certificate files and perform the documented reload step
-	UpdateFirst bool        `json:"update_first"` // an unrelated UpdatePolicyOptions before the rotation
+	Rotate      bool        `json:"rotate"`            // replace the certificate files and perform the documented reload step
+	UpdateFirst bool        `json:"update_first"`      // an unrelated UpdatePolicyOptions before the rotation
 	Restart     bool        `json:"restart,omitempty"` // between the two halves: stop, replace the CA file (same path) by another CA, start a new server instance
 	Sched       SchedCfg    `json:"sched"`
 }
 
 type c30PKIT struct {
 	caPEM, foreignPEM, srvAPEM, srvBPEM, leafKeyPEM []byte
-	srvADER, srvBDER                    []byte
-	cliSelf, cliGood, cliForeign        tls.Certificate
+	srvADER, srvBDER                                []byte
+	cliSelf, cliGood, cliForeign                    tls.Certificate
 }
 
 var (
